@@ -2,6 +2,7 @@ package pcore
 
 import (
 	"fmt"
+	"sort"
 	"reflect"
 	"testing"
 
@@ -23,6 +24,10 @@ type Link struct {
 	A      string `json:"a"`
 	B      string `json:"b"`
 	Window int    `json:"window,omitempty"`
+	// Entry: A is a map whose VALUES have B's type (map[string][]int and a
+	// []int leaf): B is the very slice / map stored under A's Key-th key
+	Entry bool `json:"entry,omitempty"`
+	Key   int  `json:"key,omitempty"`
 }
 
 type C01ShareCase struct {
@@ -31,7 +36,7 @@ type C01ShareCase struct {
 	Links []Link      `json:"links"`
 }
 
-var shareLeafTypes = []string{"*int", "*int", "*string", "**int", "*[]int", "[]string", "[]string", "[]int", "Names", "map[string]int", "*Stamp", "int", "string"}
+var shareLeafTypes = []string{"*int", "*int", "*string", "**int", "*[]int", "[]string", "[]string", "[]int", "[]int", "Names", "map[string]int", "map[string]int", "map[string][]int", "map[string]map[string]int", "*Stamp", "int", "string"}
 
 func genC01Share(t *rapid.T) C01ShareCase {
 	prof := shape.FullProfile()
@@ -74,6 +79,25 @@ func genC01Share(t *rapid.T) C01ShareCase {
 			}
 		}
 	}
+	// entries of a map leaf shared with sibling leaves of the map's value type
+	entries := func(where int, isSet func(path string) bool) {
+		for _, m := range nodes {
+			if m.Class != shape.ClassLeaf || m.Type.Kind() != reflect.Map || !isRef(m.Type.Elem().Kind()) || !isSet(m.Path) {
+				continue
+			}
+			for _, n := range nodes {
+				if n.Class != shape.ClassLeaf || n.Type != m.Type.Elem() || !isSet(n.Path) || rapid.IntRange(0, 2).Draw(t, "entry_link") == 0 {
+					continue
+				}
+				c.Links = append(c.Links, Link{Where: where, A: m.Path, B: n.Path, Entry: true, Key: rapid.IntRange(0, 2).Draw(t, "entry_key")})
+			}
+		}
+	}
+	entries(-1, func(p string) bool { return d.Defaults[p] != 0 })
+	for li, l := range d.Layers {
+		l := l
+		entries(li, func(p string) bool { return l.Set[p] != 0 })
+	}
 	pairs(-1, func(p string) bool { return d.Defaults[p] != 0 })
 	for li, l := range d.Layers {
 		l := l
@@ -91,6 +115,20 @@ func applyLinks(v reflect.Value, where int, links []Link) int {
 			continue
 		}
 		a, b := shape.FieldByPath(v, l.A), shape.FieldByPath(v, l.B)
+		if l.Entry {
+			if !a.IsValid() || !b.IsValid() || !b.CanSet() || a.Kind() != reflect.Map || a.Type().Elem() != b.Type() || a.Len() == 0 {
+				continue
+			}
+			keys := a.MapKeys()
+			sort.Slice(keys, func(i, j int) bool { return keys[i].String() < keys[j].String() })
+			ev := a.MapIndex(keys[l.Key%len(keys)])
+			if ev.IsNil() {
+				continue
+			}
+			b.Set(ev)
+			n++
+			continue
+		}
 		if !a.IsValid() || !b.IsValid() || !b.CanSet() || a.Type() != b.Type() {
 			continue
 		}
@@ -224,6 +262,12 @@ func runC01Share(c C01ShareCase) vrt.Verdict {
 			break
 		}
 	}
+	for _, l := range c.Links {
+		if l.Entry {
+			labels = append(labels, "map-entry-link")
+			break
+		}
+	}
 	if coupled > 0 {
 		labels = append(labels, "linked-leaf-overridden-alone")
 	}
@@ -233,7 +277,7 @@ func runC01Share(c C01ShareCase) vrt.Verdict {
 func TestC01Shared(t *testing.T) {
 	vrt.Check(t, vrt.Prop[C01ShareCase]{
 		ID: "C01", Name: "shared",
-		Rule: "config types rich in same-typed reference leaves (user pointers, slices, maps, named slices); defaults and 0..4 layers in which pairs of same-typed leaves of ONE input value share storage: the identical pointer / map / slice, or two windows of different length onto one backing array; " +
+		Rule: "config types rich in same-typed reference leaves (user pointers, slices, maps, named slices); defaults and 0..4 layers in which pairs of same-typed leaves of ONE input value share storage: the identical pointer / map / slice, or two windows of different length onto one backing array, or a slice / map leaf that IS one of the entries of a map leaf (map[string][]int next to []int leaves); " +
 			"oracle: stacking is by value - every leaf equals the value of the last input that set it (the plain reference model; sharing inside an input must not couple leaves of the result), and no input is modified; " +
 			"non-trivial = at least one applied link whose two leaves are overridden differently by later layers (or a window link), >=1 layer; distinct = distinct case JSON",
 		Assumptions: []string{"layers are values of the pointerified type; sources are free to hand out values whose leaves share storage (decoders of anchors/aliases, hand-written sources)"},
